@@ -82,6 +82,26 @@ FAMILIES = {
         facets=['capacity', 'dispatch', 'queue', 'history', 'lineage', 'unfinished', 'harness', 'other', 'rest', 'activation', 'handlers'],
         rule='backlog states around the queue limit (50) and the in-flight limit (100), dispatch from main code and from handlers; '
              'non-trivial: a dispatch is rejected'),
+    'C15': dict(
+        gens=[('core', dict(p_waitidle=0.35, tasklen=(2, 8), ntasks=(1, 3)), 0.6), ('core', dict(p_waitidle=0.3, p_timeout=0.4), 0.2),
+              ('chain', dict(p_timeout=0.3), 0.2)],
+        facets=['idle', 'unfinished', 'queue', 'rest', 'history', 'results', 'activation', 'harness', 'other', 'runloop', 'recursion', 'timeout'],
+        rule='wait_until_idle racing external and nested dispatches at offsets around the 0.1 s poll, after errors, timeouts, rejections, evictions; '
+             'non-trivial: a wait_until_idle call overlaps at least one activation'),
+    'C16': dict(
+        gens=[('stop', dict(), 1.0)],
+        facets=['stop', 'runloop', 'idle', 'queue', 'lifecycle', 'activation', 'timeout', 'rest', 'harness', 'other', 'handlers'],
+        rule='stop() / run-loop-task cancellation at every control state of the run loop (polling, event in hand, processing, handler mid-flight, '
+             'blocked on the lock), backlog sizes 0-6, other buses with awaiting handlers; non-trivial: the stop or cancel arrives while the bus has work'),
+    'C17': dict(
+        gens=[('core', dict(p_wal=0.7, p_payload=0.6, p_walfault=0.15, p_forward=0.25, p_parallel=0.3), 1.0)],
+        facets=['wal', 'activation', 'handlers', 'lifecycle', 'harness', 'other', 'results', 'signal'],
+        rule='WAL buses with nested, awaited and forwarded events, parallel handlers, payloads (nested containers, unicode, datetimes, big ints), '
+             'I/O faults on open/write; non-trivial: at least two WAL lines and one other activation'),
+    'C18': dict(
+        gens=[('core', dict(p_expect=0.3, ntasks=(1, 3), tasklen=(2, 7)), 1.0)],
+        facets=['expect', 'registry', 'handlers', 'lifecycle', 'activation', 'harness', 'other', 'timeout', 'results'],
+        rule='event streams x include/exclude/raising predicates x timeouts x 1-3 concurrent expect() calls; non-trivial: an expect() is pending while an event of its type is processed'),
 }
 
 BUDGET = {'quick': 480, 'thorough': 12000}
@@ -111,7 +131,7 @@ def gen_backlog(rng, **_):
     return sc
 
 
-GENS = {'core': gen.gen_core, 'backlog': gen_backlog, 'chain': gen.gen_chain}
+GENS = {'core': gen.gen_core, 'backlog': gen_backlog, 'chain': gen.gen_chain, 'stop': gen.gen_stop}
 
 
 def corpus(prop):
@@ -176,6 +196,25 @@ def nontrivial(prop, sc, lines):
         return bool(small) and cnt.get('dispatch', 0) > min(small)
     if prop == 'C14':
         return any(l.startswith('dispatch') and not l.endswith(' ok') for l in lines)
+    if prop == 'C15':
+        inwi = False
+        for l in lines:
+            if l.startswith('wiBegin'):
+                inwi = True
+            elif l.startswith('wiEnd'):
+                inwi = False
+            elif inwi and l.startswith('peBegin'):
+                return True
+        return False
+    if prop == 'C16':
+        for i, l in enumerate(lines):
+            if l.startswith('stopBegin') or l.startswith('cancelRl'):
+                return any(x.startswith(('peEnd', 'peAbort', 'rlDone', 'take')) for x in lines[i:i + 12]) and cnt.get('dispatch', 0) > 0
+        return False
+    if prop == 'C17':
+        return cnt.get('walWrite', 0) >= 2
+    if prop == 'C18':
+        return cnt.get('expectBegin', 0) > 0 and cnt.get('peBegin', 0) > 0
     return True
 
 
